@@ -273,6 +273,8 @@ struct WorkerProc {
     lost_evals: u64,
     lost_steps: u64,
     lost_validated: u64,
+    /// the case at which this shard was last seen without progress and restarted once (see below)
+    hang_retry_at: Option<u64>,
 }
 
 pub struct EngineCfg {
@@ -373,7 +375,7 @@ pub fn run_families(cfg: &EngineCfg, fams: &[Box<dyn Family>]) -> RunResult {
             let slot = Slot::create(slot_path.clone());
             slot.set(0, w);
             let child = spawn_worker(cfg, fam.sanitized(), fi, w, nw, 0, &slot_path, &out_path, remaining);
-            procs.push(WorkerProc { child, slot, out_path: out_path.clone(), w, last_idx: w, last_beat: 0, last_change: Instant::now(), segments: vec![out_path], lost_evals: 0, lost_steps: 0, lost_validated: 0 });
+            procs.push(WorkerProc { child, slot, out_path: out_path.clone(), w, last_idx: w, last_beat: 0, last_change: Instant::now(), segments: vec![out_path], lost_evals: 0, lost_steps: 0, lost_validated: 0, hang_retry_at: None });
         }
         let hang = Duration::from_secs_f64(fam.hang_secs());
         let mut hangs = 0u32;
@@ -417,6 +419,34 @@ pub fn run_families(cfg: &EngineCfg, fams: &[Box<dyn Family>]) -> RunResult {
                 if let Some(how) = died {
                     let tail = read_stderr_tail(&p.slot.path);
                     let at = p.slot.get(0);
+                    // A case without progress for the whole bound is a hang only if it does it AGAIN: the first time
+                    // the shard is restarted AT that case (a machine that stalls for 20 s under other load - seen
+                    // once in a fresh sandbox on a case that takes microseconds - must not count as a hang of the
+                    // subject; a real hang repeats and is reported at the second expiry).
+                    if how.starts_with("hang") && at != u64::MAX && p.hang_retry_at != Some(at) {
+                        p.hang_retry_at = Some(at);
+                        *st.extra.entry("cases_restarted_after_a_stall".into()).or_insert(0) += 1;
+                        p.lost_evals += p.slot.get(1);
+                        p.lost_steps += p.slot.get(2);
+                        p.lost_validated += p.slot.get(3);
+                        let out_path = cfg.scratch.join(format!("out-{fi}-{}-{}", p.w, p.segments.len()));
+                        let _ = std::fs::remove_file(&out_path);
+                        let _ = std::fs::remove_file(format!("{}.hashes", out_path.display()));
+                        p.slot.set(0, at);
+                        p.slot.set(1, 0);
+                        p.slot.set(2, 0);
+                        p.slot.set(3, 0);
+                        p.slot.set(5, 0);
+                        p.slot.set(6, 0);
+                        let remaining = (cfg.wall_cap_s - t_start.elapsed().as_secs_f64()).max(fam.hang_secs() + 5.0);
+                        p.child = spawn_worker(cfg, fam.sanitized(), fi, p.w, nw, at, &p.slot.path, &out_path, remaining);
+                        p.out_path = out_path.clone();
+                        p.segments.push(out_path);
+                        p.last_idx = at;
+                        p.last_beat = 0;
+                        p.last_change = Instant::now();
+                        continue;
+                    }
                     st.crashes += 1;
                     p.lost_evals += p.slot.get(1) + 1;
                     p.lost_steps += p.slot.get(2);
@@ -439,10 +469,10 @@ pub fn run_families(cfg: &EngineCfg, fams: &[Box<dyn Family>]) -> RunResult {
                     if how.starts_with("hang") {
                         hangs += 1;
                     }
-                    // a shard is not restarted once the family has shown many crashes, a few hangs (each costs the
-                    // whole hang bound) or the wall cap is used up: the violations found so far are reported and
+                    // a shard is not restarted once the family has shown many crashes, a few confirmed hangs (each costs
+                    // the hang bound twice) or the wall cap is used up: the violations found so far are reported and
                     // the family counts as incomplete
-                    let give_up = st.crashes > 200 || hangs >= 8 || t_start.elapsed().as_secs_f64() > cfg.wall_cap_s;
+                    let give_up = st.crashes > 200 || hangs >= 4 || t_start.elapsed().as_secs_f64() > cfg.wall_cap_s;
                     if next >= n || give_up {
                         if next < n && give_up {
                             st.complete = false;
